@@ -21,7 +21,7 @@ WAKES = [50e-6, 1e-3, 5e-3]
 
 def call_msg(c):
     ln, tl, tg = c['len'], c['tl'], c['tg']
-    m = {'src': A_, 'size': ln, 'tl': tl, 'pat': 0, 'prio': c.get('prio', 6)}
+    m = {'src': A_, 'size': ln, 'tl': tl, 'pat': 0, 'prio': c.get('prio', 6), 'dp': c.get('dp', 0)}
     if tg in ('B', 'C'):
         m.update(kind='p2p', dst=B_ if tg == 'B' else C_, pf=0xD0 + (ln & 1))
     elif tg in ('G', 'FBG'):
@@ -101,7 +101,7 @@ def run_one(sc, prefix=(), seed=0, keep=False):
                 probs.append("send_pgn returned %r for a parameter group of %d bytes" % (r, m['size']))
                 continue
             pf, ps = net.pfps(m)
-            cpgn = (pf << 8) | (ps if pf >= 240 else 0)
+            cpgn = (m.get('dp', 0) << 16) | (pf << 8) | (ps if pf >= 240 else 0)
             dest = m['dst'] if m['kind'] == 'p2p' else 255
             hit = None
             for g in groups:
@@ -156,11 +156,18 @@ def scenarios(tier):
     quick = tier == 'quick'
     out = []          # (scenario, bound)
     call = lambda ln, tl, tg, off=0.0, via='app': {'len': ln, 'tl': tl, 'tg': tg, 'off': off, 'via': via}
-    # (0) every single call
+    # (0) every single call (both data pages)
     for ln in range(1, 61):
         for tl in LIMITS:
             for tg in TARGETS:
                 out.append(({'calls': [call(ln, tl, tg)]}, 0))
+                if ln in (1, 8, 27, 60) or not quick:
+                    out.append(({'calls': [dict(call(ln, tl, tg), dp=1)]}, 0))
+    # groups of both data pages for one destination in one sequence
+    for tg in ('B', 'G', 'P2', 'FB'):
+        for tl in LIMITS[1:3]:
+            for dps in ((0, 1), (1, 0), (1, 1), (1, 0, 1)):
+                out.append(({'calls': [dict(call(8 + i, tl, tg), dp=d) for i, d in enumerate(dps)]}, 0))
     # (i) same destination: all length tuples x time-limit tuples (the fit test flips at 4+l1+4+l2 = 64)
     for tg in ('B', 'FB') if quick else ('B', 'G', 'P2', 'FB'):
         for k in (2, 3):
